@@ -32,7 +32,7 @@ T = 'chainables.tree'
 
 
 def run(ctx: Ctx):
-  for r in (r1, r2, r3, r4, r5, r6, r7, r8, r9, r10, r11, r12, r13, r14, r15, r16):
+  for r in (r1, r2, r3, r4, r5, r6, r7, r8, r9, r10, r11, r12, r13, r14, r15, r16, r17):
     ctx.guard(r)
 
 
@@ -670,10 +670,12 @@ def r13(ctx: Ctx):
     q, ok = t, False
     while q in pm:
       par = pm[q]
-      if isinstance(par, ast.BoolOp) and isinstance(par.op, ast.And) and any(
-          isinstance(v, ast.Call) and unparse(v.func) == 'isinstance' and v.args and unparse(v.args[0]) == p
-          and not any(isinstance(y, ast.Name) and y.id == 'str' for y in ast.walk(v.args[1]))
-          for v in par.values if v is not q):
+      def kind_test(v):
+        if isinstance(v, ast.BoolOp) and isinstance(v.op, ast.Or):
+          return all(kind_test(z) for z in v.values)
+        return (isinstance(v, ast.Call) and unparse(v.func) == 'isinstance' and v.args and unparse(v.args[0]) == p
+                and not any(isinstance(y, ast.Name) and y.id == 'str' for y in ast.walk(v.args[1])))
+      if isinstance(par, ast.BoolOp) and isinstance(par.op, ast.And) and any(kind_test(v) for v in par.values if v is not q):
         ok = True
       q = par
     if not ok:
@@ -793,10 +795,66 @@ def r16(ctx: Ctx):
   ctx.floor(rule, 1, n)
 
 
+def r17(ctx: Ctx):
+  rule = 'R-C18-17'
+  ctx.rule(rule, '"iterating a view lists every leaf exactly once with a path that reads back that leaf": the enumeration descends'
+           ' only into the kinds of node a key path can be READ from. The getter indexes Mappings (by key) and list / tuple'
+           ' nodes (types.is_array_like, by Index); so every isinstance test that guards a recursive descent in'
+           ' _dfs_iter_tree names Mapping, list, tuple (or dict) — not an abstract Sequence / Iterable / Collection: bytes,'
+           ' range, deque and user sequences are Sequences too, their elements would be listed under paths that raise'
+           ' KeyError when read (and keys()/items() of a record holding a bytes value fail)')
+  mi = ctx.repo.module(T)
+  fi = mi.functions.get('_dfs_iter_tree')
+  if fi is None:
+    raise AnalysisError('_dfs_iter_tree not found')
+  readable = {'Mapping', 'list', 'tuple', 'dict', 'collections.abc.Mapping', 'abc.Mapping', 'MutableMapping'}
+  n = 0
+  for x in ast.walk(fi.node):
+    if not isinstance(x, ast.If):
+      continue
+    if not any(isinstance(c, ast.Call) and unparse(c.func) == fi.node.name for b in x.body for c in ast.walk(b)):
+      continue
+    n += 1
+    kinds = set()
+    for c in ast.walk(x.test):
+      if isinstance(c, ast.Call) and unparse(c.func) == 'isinstance' and len(c.args) == 2:
+        pm_neg = False
+        k = c.args[1]
+        kinds |= {unparse(e) for e in (k.elts if isinstance(k, ast.Tuple) else [k])}
+    positive = set()
+    # only the POSITIVE tests decide what is descended into: `isinstance(d, Sequence) and not isinstance(d, str)`
+    def pos(e, neg=False):
+      if isinstance(e, ast.UnaryOp) and isinstance(e.op, ast.Not):
+        pos(e.operand, not neg)
+      elif isinstance(e, ast.BoolOp):
+        for v in e.values:
+          pos(v, neg)
+      elif isinstance(e, ast.Call) and unparse(e.func) == 'isinstance' and len(e.args) == 2 and not neg:
+        k = e.args[1]
+        positive.update(unparse(z) for z in (k.elts if isinstance(k, ast.Tuple) else [k]))
+      elif isinstance(e, ast.Call) and unparse(e.func).endswith('is_array_like') and not neg:
+        positive.update({'list', 'tuple'})
+    pos(x.test)
+    extra = positive - readable
+    what = f'_dfs_iter_tree: descent under `{unparse(x.test)[:60]}` enters readable node kinds only'
+    if extra or not positive:
+      ctx.fail(rule, fi, what,
+               f'`{unparse(x.test)[:80]}` descends into {sorted(extra) or "nodes of any kind"}: the getter reads Index paths from list /'
+               ' tuple nodes only, so the elements of a bytes / range / deque value are listed under paths that raise KeyError'
+               ' when read back', node=x)
+    else:
+      ctx.ok(rule, fi, what, x)
+  ctx.floor(rule, 2, n)
+
+
 from mlmverif.selfcheck import B, OK  # noqa: E402
 
 _F = 'chainables/tree.py'
 VARIANTS = [
+    B('revert-enumeration-descends-into-any-sequence', 'chainables/tree.py',
+      "  elif isinstance(data, (list, tuple)) and data:\n    for i, v in enumerate(data):", "  elif isinstance(data, Sequence) and not isinstance(data, str) and data:\n    for i, v in enumerate(data):", 'R-C18-17'),
+    OK('enumeration-descends-into-list-then-tuple', 'chainables/tree.py',
+       "  elif isinstance(data, (list, tuple)) and data:\n    for i, v in enumerate(data):", "  elif (isinstance(data, list) or isinstance(data, tuple)) and data:\n    for i, v in enumerate(data):"),
     B('tuple-node-rebuilt-with-its-dynamic-type', 'chainables/tree.py',
       "        container_maker = tuple\n", "        container_maker = type(tree)\n", 'R-C18-16'),
     B('keys-shortcut-returns-the-configured-paths', 'chainables/tree.py',
@@ -805,7 +863,7 @@ VARIANTS = [
       "          if key == len(result):\n            assert isinstance(result, list)\n            result.append(NullMap())",
       "          if key == len(result) and isinstance(tree, list):\n            result.append(NullMap())", 'R-C18-15'),
     B('revert-root-leaf-by-truth', 'chainables/tree.py',
-      "  elif data is not None and not (\n      isinstance(data, (Mapping, Sequence)) and not isinstance(data, str)\n  ):\n", "  elif data:\n", 'R-C18-13'),
+      "  elif data is not None and not isinstance(data, (Mapping, list, tuple)):\n", "  elif data:\n", 'R-C18-13'),
     B('as-view-rewires-the-incoming-view', 'chainables/tree.py',
       "      tree_or_view = dataclasses.replace(\n          tree_or_view,\n          map_fn=map_fn,\n      )", "      tree_or_view.map_fn = map_fn", 'R-C18-12'),
     B('setter-strips-self-and-descends', 'chainables/tree.py',
